@@ -49,6 +49,11 @@ DB_EXEC_A = ("import jsn\nimport jsn as js2\nfrom pkg import b\nfrom pkg import 
              "from m import d as d1, d as d2\nimport numpy as np\nimport numpy\n")
 
 
+# round 5: the package names themselves are known (`import pkg`, `import qq`): a three-component plain import read only
+# through its intermediate package must survive, otherwise `pkg` is a uniquely known name left unbound
+DB_EXEC_R5 = DB_EXEC + "import pkg\nimport qq\n"
+
+
 def db_index(dbtext):
     """local name -> list of full names the database offers for it; read with stdlib ast, not with pyflyby."""
     idx = {}
@@ -78,7 +83,7 @@ UNIQUE = {"np": ("numpy", "np"), "osx": ("osx", "osx"), "b": ("pkg.b", "b"), "c"
           "f": ("pkg.sub", "f")}
 AMBIG = {"e"}
 UNKNOWN = {"g", "zz", "pkg", "aa"}          # `import pkg.util` / `import aa.bb` are looked up by first component only
-ROOTS = ("numpy", "osx", "pkg", "m", "n", "aa", "qq", "\u0928\u093e\u092e", "js", "jsx", "pk", "pk2", "decoy", "zz", "g", "jsn")
+ROOTS = ("numpy", "osx", "pkg", "m", "n", "aa", "qq", "\u0928\u093e\u092e", "js", "jsx", "pk", "pk2", "decoy", "zz", "g", "jsn", "zc")
 LOCALS = ["v1", "v2", "v3"]
 
 
@@ -97,7 +102,8 @@ def existing_import(r):
     return r.choice(["import qq", "import qq.sub", "from qq import zq", "import qq.sub as qs", "import numpy as np",
                      "import osx", "from pkg import b", "from m import d, d2", "import pkg.sub as f", "from n import e",
                      "from qq import zr, zs", "import pkg.util", "from pkg import c as c", "from n import zq2", "from pkg.sub import zq3",
-                     "from qq.sub import zq4", "from pkg import zq5"])
+                     "from qq.sub import zq4", "from pkg import zq5", "import pkg.sub.deep", "import qq.sub.deep2", "import pkg.sub.deep.er",
+                     "import osx.path", "import qq.sub.x3"])
 
 
 def gen_exec(r, uni=False, pool=None):
@@ -126,9 +132,25 @@ def gen_exec(r, uni=False, pool=None):
                                    '"%s"; %s' % (s, existing_import(r)),
                                    '%s; v1 = "%s"' % (use(r, pool), s)]))
             continue
+        if r.random() < .10:                  # the package name of a dotted import as parameter / local / loop variable,
+            pk, path = r.choice([("osx", "path"), ("qq", "sub"), ("pkg", "sub"), ("pkg", "sub.deep"), ("qq", "sub.x3")])   # read with the same dotted path
+            nm = "sh%d" % len(lines)
+            lines += r.choice([["def %s(%s=1):" % (nm, pk), "    return %s.%s.x" % (pk, path)],
+                               ["def %s(p=1):" % nm, "    %s = p" % pk, "    return %s.%s" % (pk, path)],
+                               ["v1 = (lambda %s: %s.%s.y)" % (pk, pk, path)],
+                               ["v2 = [%s.%s for %s in [v1]]" % (pk, path, pk)],
+                               ["class %s:" % nm.upper(), "    def meth(self, %s=1):" % pk, "        return %s.%s" % (pk, path)],
+                               ["def %s(p=1):" % nm, "    for %s in [p]:" % pk, "        v = %s.%s.z" % (pk, path), "    return p"]])
+            if r.random() < .5:
+                lines.insert(r.randint(0, max(0, len(lines) - 3)) if not lines or not lines[0].startswith(('"""', "#!", "from __future__")) else len(lines),
+                             "import %s.%s" % (pk, path))
+            continue
+        if r.random() < .10:                  # a plain import with >= 3 components read only through the intermediate package
+            lines.append(r.choice(["v1 = pkg.sub.x", "v2 = qq.sub.y(1)", "pkg.sub.z", "v3 = [pkg.sub, qq.sub.w]", "v1 = pkg.sub.deep2"]))
+            continue
         if r.random() < .12:                  # an unused import that is NOT top-level, on an early line
             lines += r.choice([["def loc%d(p=1):" % len(lines), "    import qq.zloc", "    return p"],
-                               ["if v1:", "    import qq.zcond", "else:", "    pass"],
+                               ["if v1:", "    import zc.zcond", "else:", "    pass"],
                                ["def loc%d(p=1):" % len(lines), "    from qq import zl2 as zl3", "    import qq.sub", "    return p"]])
             continue
         if k < .25:
@@ -259,7 +281,7 @@ def gen_cases(ctx, n):
         src = gen_src(r, uni)
         if k == 7:
             fl = S.gen_flags(r)
-        db = r.choice([DB_EXEC, DB_EXEC, DB_EXEC_MAND, DB_EXEC_MAND2, DB_EXEC2, DB_EXEC2, DB_EXEC_A, DB_EXEC_A])
+        db = r.choice([DB_EXEC, DB_EXEC, DB_EXEC_MAND, DB_EXEC_MAND2, DB_EXEC2, DB_EXEC2, DB_EXEC_A, DB_EXEC_A, DB_EXEC_R5, DB_EXEC_R5, DB_EXEC_R5])
         if uni:
             db = DB_EXEC_U
         elif db is DB_EXEC_A:
@@ -315,6 +337,14 @@ WITNESSES = [
      "flags": {"add_missing": True, "remove_unused": "AUTOMATIC", "add_mandatory": False}, "params": None},
     # an unused function-local import on an earlier line than unused top-level imports
     {"kind": "tidy", "stream": "witness", "w": "local-unused-first", "src": "def loc(p=1):\n    import qq.zloc\n    return p\nimport qq\nfrom qq import zq\nv1 = 1\n", "db": DB_EXEC,
+     "flags": {"add_missing": True, "remove_unused": True, "add_mandatory": False}, "params": None},
+    # round 5: a three-component plain import read only through the intermediate package
+    {"kind": "tidy", "stream": "witness", "w": "r5-intermediate", "src": "import pkg.sub.deep\nv1 = pkg.sub.x\n", "db": DB_EXEC_R5,
+     "flags": {"add_missing": True, "remove_unused": True, "add_mandatory": False}, "params": None},
+    # round 5: an unused dotted import whose package name is a parameter read with the same dotted path
+    {"kind": "tidy", "stream": "witness", "w": "r5-shadowed-path", "src": "import osx.path\ndef sh(osx=1):\n    return osx.path.x\nsh()\n", "db": DB_EXEC_R5,
+     "flags": {"add_missing": True, "remove_unused": True, "add_mandatory": False}, "params": None},
+    {"kind": "tidy", "stream": "witness", "w": "r5-shadowed-path", "src": "import qq.sub\nv2 = [qq.sub for qq in [v1]]\nv1 = (lambda qq: qq.sub.y)\n", "db": DB_EXEC,
      "flags": {"add_missing": True, "remove_unused": True, "add_mandatory": False}, "params": None},
     # F23: unused import in a block that starts on the line where the previous block's text ends
     {"kind": "tidy", "stream": "witness", "w": "F23", "src": "import qq\nv1 = 1; import zz\nqq\n", "db": DB_EXEC,
@@ -512,6 +542,83 @@ def import_bound(src):
     return out
 
 
+def globally_read(src):
+    """names that some scope of the module reads AS A GLOBAL: at module level, or inside a function / class / lambda /
+    comprehension in which the name is not a parameter, local, loop variable or class-body name.  Own resolver over
+    stdlib ast (symtable loses the references of inlined comprehensions in 3.12)."""
+    out = set()
+    SCOPES = (ast.FunctionDef, ast.AsyncFunctionDef, ast.Lambda, ast.ClassDef, ast.ListComp, ast.SetComp, ast.DictComp, ast.GeneratorExp)
+
+    def bindings(nodes, args=None):
+        b, glob = set(), set()
+        if args is not None:
+            for a in args.posonlyargs + args.args + args.kwonlyargs + [x for x in (args.vararg, args.kwarg) if x]:
+                b.add(a.arg)
+        stack = list(nodes)
+        while stack:
+            n = stack.pop()
+            if isinstance(n, (ast.FunctionDef, ast.AsyncFunctionDef, ast.ClassDef)):
+                b.add(n.name)
+                continue
+            if isinstance(n, SCOPES):
+                continue
+            if isinstance(n, ast.Name) and isinstance(n.ctx, (ast.Store, ast.Del)):
+                b.add(n.id)
+            elif isinstance(n, (ast.Import, ast.ImportFrom)):
+                for a in n.names:
+                    b.add((a.asname or a.name).split(".")[0])
+            elif isinstance(n, ast.ExceptHandler) and n.name:
+                b.add(n.name)
+            elif isinstance(n, ast.Global):
+                glob.update(n.names)
+            stack.extend(ast.iter_child_nodes(n))
+        return b - glob
+
+    def inner(scopes, new):
+        return [s for s in scopes if s[0] != "class"] + [new]
+
+    def visit(n, scopes):
+        if isinstance(n, ast.Name):
+            if isinstance(n.ctx, ast.Load) and not any(n.id in s[1] for s in scopes):
+                out.add(n.id)
+            return
+        if isinstance(n, (ast.FunctionDef, ast.AsyncFunctionDef)):
+            for x in n.decorator_list + n.args.defaults + [d for d in n.args.kw_defaults if d] + ([n.returns] if n.returns else []):
+                visit(x, scopes)
+            sc = inner(scopes, ("func", bindings(n.body, n.args)))
+            for x in n.body:
+                visit(x, sc)
+            return
+        if isinstance(n, ast.Lambda):
+            for x in n.args.defaults + [d for d in n.args.kw_defaults if d]:
+                visit(x, scopes)
+            visit(n.body, inner(scopes, ("func", bindings([], n.args))))
+            return
+        if isinstance(n, ast.ClassDef):
+            for x in n.decorator_list + n.bases + [k.value for k in n.keywords]:
+                visit(x, scopes)
+            sc = scopes + [("class", bindings(n.body))]
+            for x in n.body:
+                visit(x, sc)
+            return
+        if isinstance(n, (ast.ListComp, ast.SetComp, ast.DictComp, ast.GeneratorExp)):
+            visit(n.generators[0].iter, scopes)
+            sc = inner(scopes, ("comp", bindings([g.target for g in n.generators])))
+            for k, g in enumerate(n.generators):
+                if k:
+                    visit(g.iter, sc)
+                for c in g.ifs:
+                    visit(c, sc)
+            for x in ([n.key, n.value] if isinstance(n, ast.DictComp) else [n.elt]):
+                visit(x, sc)
+            return
+        for ch in ast.iter_child_nodes(n):
+            visit(ch, scopes)
+
+    visit(ast.parse(src), [])
+    return out
+
+
 def loaded_names(src):
     names = set()
     for node in ast.walk(ast.parse(src)):
@@ -561,7 +668,7 @@ def oracle(c, im):
             if newly:
                 bad.append(("binding_lost", "names bound in the input are unbound in the output: %r" % newly))
     if removal_expected(c) and fl.get("add_missing", True):
-        loads = loaded_names(out)
+        loads = globally_read(out)
         futures = {"division", "annotations", "print_function"}
         for nme, how in sorted(after.items()):
             if nme in loads or nme in mand or nme in futures:
